@@ -280,60 +280,51 @@ def typedSeen (m : List (Value × Value)) : List Label :=
 /-- `to_cbor_array` over registry labels (cannot fail). -/
 def regLabelsToValues (R : Registry) (ls : List RegLabel) : Res (List Value) := mapRes (RegLabel.toValue R) ls
 
+/-- the integer / text a registry label stands for (`to_cbor_value` of a label cannot fail). -/
+def RegLabel.value (R : Registry) : RegLabel → Value
+  | .assigned k => .int (R.toI64 k)
+  | .text t => .text t
+def RegLabelPriv.value (R : Registry) : RegLabelPriv → Value
+  | .privateUse i => .int i
+  | .assigned k => .int (R.toI64 k)
+  | .text t => .text t
+
+/-- the entries `Header::to_cbor_value` pushes for alg, crit, content type, kid, IV, Partial IV (in this order, only when populated). -/
+def headerTypedPairs (alg : Option RegLabelPriv) (crit : List RegLabel) (ct : Option RegLabel) (kid iv piv : Bytes) : List (Value × Value) :=
+  let m1 : List (Value × Value) := match alg with
+    | some a => [(.int Gen.header_ALG, RegLabelPriv.value Reg.algorithm a)]
+    | none => []
+  let m2 := if !crit.isEmpty then m1 ++ [(.int Gen.header_CRIT, .array (crit.map (RegLabel.value Reg.headerParameter)))] else m1
+  let m3 := match ct with
+    | some c => m2 ++ [(.int Gen.header_CONTENT_TYPE, RegLabel.value Reg.coapContentFormat c)]
+    | none => m2
+  let m4 := if !kid.isEmpty then m3 ++ [(.int Gen.header_KID, .bytes kid)] else m3
+  let m5 := if !iv.isEmpty then m4 ++ [(.int Gen.header_IV, .bytes iv)] else m4
+  if !piv.isEmpty then m5 ++ [(.int Gen.header_PARTIAL_IV, .bytes piv)] else m5
+
+/-- the final loop over the extra parameters, `seen` seeded with the labels already emitted. -/
+def headerFinish (m : List (Value × Value)) (rest : List (Label × Value)) : Res Value :=
+  match restToPairs rest (typedSeen m) m with
+  | .ok m' => .ok (.map m')
+  | .err e => .err e
+  | .panic p => .panic p
+
 mutual
 /-- `Header::to_cbor_value` -/
 def Header.toValue : Header → Res Value
   | .mk alg crit ct kid iv piv cs rest =>
-    let m0 : List (Value × Value) := []
-    match (match alg with
-           | some a => match RegLabelPriv.toValue Reg.algorithm a with
-             | .ok v => Res.ok (m0 ++ [(Value.int Gen.header_ALG, v)])
-             | .err e => .err e
-             | .panic p => .panic p
-           | none => .ok m0) with
-    | .ok m1 =>
-      match (if !crit.isEmpty then
-               match regLabelsToValues Reg.headerParameter crit with
-               | .ok vs => Res.ok (m1 ++ [(Value.int Gen.header_CRIT, Value.array vs)])
-               | .err e => .err e
-               | .panic p => .panic p
-             else .ok m1) with
-      | .ok m2 =>
-        match (match ct with
-               | some c => match RegLabel.toValue Reg.coapContentFormat c with
-                 | .ok v => Res.ok (m2 ++ [(Value.int Gen.header_CONTENT_TYPE, v)])
-                 | .err e => .err e
-                 | .panic p => .panic p
-               | none => .ok m2) with
-        | .ok m3 =>
-          let m4 := if !kid.isEmpty then m3 ++ [(Value.int Gen.header_KID, Value.bytes kid)] else m3
-          let m5 := if !iv.isEmpty then m4 ++ [(Value.int Gen.header_IV, Value.bytes iv)] else m4
-          let m6 := if !piv.isEmpty then m5 ++ [(Value.int Gen.header_PARTIAL_IV, Value.bytes piv)] else m5
-          match (match cs with
-                 | [] => Res.ok m6
-                 | [s] =>
-                   match CoseSignature.toValue s with
-                   | .ok v => .ok (m6 ++ [(Value.int Gen.header_COUNTER_SIG, v)])
-                   | .err e => .err e
-                   | .panic p => .panic p
-                 | s :: s2 :: ss =>
-                   match sigsToValues (s :: s2 :: ss) with
-                   | .ok vs => .ok (m6 ++ [(Value.int Gen.header_COUNTER_SIG, Value.array vs)])
-                   | .err e => .err e
-                   | .panic p => .panic p) with
-          | .ok m7 =>
-            match restToPairs rest (typedSeen m7) m7 with
-            | .ok m => .ok (.map m)
-            | .err e => .err e
-            | .panic p => .panic p
-          | .err e => .err e
-          | .panic p => .panic p
-        | .err e => .err e
-        | .panic p => .panic p
+    match cs with
+    | [] => headerFinish (headerTypedPairs alg crit ct kid iv piv) rest
+    | [s] =>
+      match CoseSignature.toValue s with
+      | .ok v => headerFinish (headerTypedPairs alg crit ct kid iv piv ++ [(.int Gen.header_COUNTER_SIG, v)]) rest
       | .err e => .err e
       | .panic p => .panic p
-    | .err e => .err e
-    | .panic p => .panic p
+    | s :: s2 :: ss =>
+      match sigsToValues (s :: s2 :: ss) with
+      | .ok vs => headerFinish (headerTypedPairs alg crit ct kid iv piv ++ [(.int Gen.header_COUNTER_SIG, .array vs)]) rest
+      | .err e => .err e
+      | .panic p => .panic p
 /-- `CoseSignature::to_cbor_value` -/
 def CoseSignature.toValue : CoseSignature → Res Value
   | .mk prot unprot sig =>
